@@ -4,7 +4,7 @@ import math
 from ..common import b2f, f2b
 from ..gen import gen_tree, infosets_of, tree_stats
 from ..ops import CaseBuilder
-from ..solvers import level_tree, PRESETS
+from ..solvers import level_tree, PRESETS, blind_guess_tree
 from .. import oracle
 
 SCOPE = {"solve", "named", "info"}
@@ -57,7 +57,9 @@ def generate(rng, tier, n):
     cid = 0
     while len(cases) < n:
         c = rng.random()
-        if c < 0.2:
+        if c < 0.12:
+            t, st = blind_guess_tree(rng)
+        elif c < 0.25:
             t, st = chain_tree(rng, rng.choice([6, 10, 14]))
         elif c < 0.4:
             t, st = wide_tree(rng, rng.choice([8, 12]))
@@ -141,3 +143,15 @@ def classify(cb, impl):
     except Exception:
         pass
     return out
+
+
+def escalate(cb, cid0):
+    """longer runs of the same game and preset: the envelopes shrink like 1/sqrt(T), a non-converging solver stays put"""
+    m = dict(cb.meta)
+    nb = CaseBuilder(cid0, cb.tree, m)
+    nb.meta["runs"] = []
+    for T in (1000, 3000, 10000):
+        s = nb.solve("full", T, 0.0, m["threads"], m["preset"], kind="solve_long")
+        nb.info(s, kind="info_long")
+        nb.meta["runs"].append((T, len(nb.ops) - 2))
+    return [nb]
